@@ -53,6 +53,22 @@ def all_harnesses():
                                           f"crate::c09::{fn}(4, {cap}, {rs_sched(s)}, {str(gone).lower()}{extra})", unwind=12,
                                           unit=unit + "::work verdict", timeout=900,
                                           shape={"block": key, "params": extra.strip(', '), "cap": cap, "situation": desc, "upstream_gone": gone}, core=core))
+    # AuDecode: header (28 bytes) then data in pieces; situations after the header
+    for si, (s, desc) in enumerate(([(28, 0), (28, 0), (28, 0), (1, 0)], "header done, 1 data byte"), ([(28, 0), (28, 0), (28, 0), (3, 0), (0, 0)], "3 data bytes, then 1 left"),
+                                    ([(28, 0), (28, 0), (28, 0), (4, 0), (0, 0)], "output full"), ([(7, 0), (7, 0)], "header incomplete"))):
+        for cap_out in (1, 4):
+            for gone in (False, True):
+                hs.append(Harness(f"c09_audec_s{si}_o{cap_out}_{'gone' if gone else 'alive'}", f"crate::c09::au_decode({rs_sched(s)}, 40, {cap_out}, {str(gone).lower()})",
+                                  unwind=44, unit="AuDecode::work verdict", timeout=1500,
+                                  shape={"block": "AuDecode", "situation": desc, "cap_out": cap_out, "upstream_gone": gone}, core=(si in (0, 1) and cap_out == 4 and not gone)))
+    for size in (2, 3):
+        for cap in (size, size + 1):
+            for si, (s, desc) in enumerate(situations(cap)):
+                for gone in (False, True):
+                    hs.append(Harness(f"c09_fftstream_n{size}_c{cap}_s{si}_{'gone' if gone else 'alive'}",
+                                      f"crate::c09::fft_stream({size}, 6, {cap}, {rs_sched(s)}, {str(gone).lower()})", unwind=14, unit="FftStream::work verdict",
+                                      timeout=1500, shape={"block": "FftStream", "size": size, "cap": cap, "situation": desc, "upstream_gone": gone},
+                                      core=(size == 2 and cap == 3 and si in (3, 4) and not gone)))
     for cap in (1, 2):
         for ln in (1, 2, 3):
             for inf in (False, True):
